@@ -475,7 +475,8 @@ SYNC_CORPUS = [
 
 
 def sync_connect_part(ck, rnd, n, tied):
-    label = "endpoint.connect() completing synchronously (ok/fail at random) vs the model with the outcome as the next event"
+    label = ("endpoint.connect() completing synchronously (ok/fail at random) vs Model.BrokerClientSync.srun (connect modes) "
+             "and vs the asynchronous model with the outcome as the next event")
     cases, impl, evss = [], [], []
     mon_bad = None
     for i in range(n + 2 * len(SYNC_CORPUS)):
@@ -508,8 +509,21 @@ def sync_connect_part(ck, rnd, n, tied):
         cases.append(D.enc_case(mev))
         impl.append((D.enc_trace(records), g.im.sync_used))
         evss.append((events, pk))
+    # (a) directly against the model with connect modes, Model/BrokerClientSync.v (one segment per event, no merging)
+    scases = []
+    for (events, _pk), (_it, used) in zip(evss, impl):
+        line = []
+        for ev, u in zip(events, used):
+            line += [1 if u == "ok" else (2 if u == "fail" else 0)] + D.enc_event(ev)
+        scases.append(line)
+    smo = ck.model("brokerclientsync", scases)
+    sdiff = [i for i, ((it, _u), mt) in enumerate(zip(impl, smo)) if it != mt]
+    nco, nbad = ck.coq_sample("brokerclientsync", "Model.BrokerClientSync", list(zip(scases, smo)))
+    if nbad:
+        raise vlib.CheckAbort("extracted sync model and vm_compute disagree on %d of %d sampled cases" % (nbad, nco))
+    # (b) against the asynchronous model with the outcome inserted as the next event (what C10_sync_run_is_async_run proves equal)
     mo = ck.model(MODEL, cases)
-    ndiff, first = 0, None
+    ndiff, first = len(sdiff), (sdiff[0] if sdiff else None)
     for i, ((it, used), mt) in enumerate(zip(impl, mo)):
         isegs, msegs = split_trace(it), split_trace(mt)
         merged, j = [], 0
@@ -527,6 +541,7 @@ def sync_connect_part(ck, rnd, n, tied):
     st = ck.cov["correspondence"].setdefault(label, {"cases": 0, "differences": 0, "in_coq_sample": 0})
     st["cases"] += len(cases)
     st["differences"] += ndiff
+    st["in_coq_sample"] += nco
     ck.cov["evaluations"] += len(cases)
     if mon_bad is not None:
         (thm, msg, idx), events, used, pk = mon_bad
